@@ -200,7 +200,12 @@ def r05c(P, R):
         R.floor("R05-c", "check_valid_implementation call in " + name, len(calls), 1)
         adt = TS + ("ObjectTypeDefinition" if name == "check_object" else "InterfaceTypeDefinition")
         for c in calls:
+            own = pv.params.get(f.params[0].get("local"))
             ok = has_field(pv.atoms(c["args"][1]), adt, "name") and has_field(pv.atoms(c["args"][2]), adt, "fields") and has_field(pv.atoms(c["args"][3]), adt, "implements")
+            # ... of the type being checked (first parameter), not of a definition looked up in the schema
+            for ai in (1, 2, 3):
+                ps = {x[1] for x in pv.data_atoms(c["args"][ai]) if x[0] == "param"}
+                ok = ok and ps == {own}
             R.check("R05-c", "implementation-args:" + name, ok, "(name, fields, implements) of the implementing type",
                     "%s passes the wrong components to check_valid_implementation" % f.path, loc=f.loc())
         made = {norm(x.get("variant", "")).split("::")[-1] for x in f.walk() if x.get("k") == "Struct" and "rest" not in x}
@@ -283,6 +288,41 @@ def r05f(P, R):
             "check_valid_implementation no longer uses is_subtype for the covariant return type rule", loc=cvi.loc())
     n = recursion_discipline(P, R, "R05-f", [sub, P.fn("nitrogql_ast::type::Type::is_same")])
     R.floor("R05-f", "recursive argument positions", n, 6)
+    # non-null stripping of the super-type side happens only when the sub-type side is itself non-null:
+    # `[T]` is not a sub-type of `[T]!`, `T` is not a sub-type of `T!`
+    spv = Prov(sub)
+    TY = "graphql_type_system::r#type::Type"
+    tparam, oparam = spv.params.get(sub.params[1].get("local")), spv.params.get(sub.params[2].get("local"))
+    tmatch = [m for m in sub.walk() if m.get("k") == "Match" and not m.get("x") and {x[1] for x in spv.atoms(m["scrut"]) if x[0] == "param"} == {tparam}
+              and any(("variant" in str(a)) or True for a in [0])]
+    tmatch = [m for m in tmatch if {"NonNull", "List", "Named"} <= arm_variants(m)[0]]
+    R.floor("R05-f", "is_subtype: match over the sub-type side", len(tmatch), 1)
+    stripped_uses = 0
+    for i, (x, _) in enumerate(sub.nodes()):
+        if x.get("k") != "Path" or "local" not in x:
+            continue
+        a = spv.atoms(x)
+        if ("param", oparam) not in a or not any(t[0] == "variant" and t[1].endswith("Type::NonNull") for t in a):
+            continue
+        if ("param", tparam) in a:
+            continue
+        # `x` is (possibly) the super-type with its NonNull removed; where is it used?
+        arms = [c for c in enclosing_contexts(sub, i) if c[0] == "arm" and c[1] in tmatch]
+        if not arms:
+            # defined/used outside the match over the sub-type: only its definition site (a binding initialiser) is allowed there
+            ctxs = enclosing_contexts(sub, i)
+            in_let_init = any(n.get("k") == "Let" and n.get("init") is not None and x in subnodes(n["init"]) for n, _ in sub.nodes())
+            if in_let_init:
+                continue
+            R.violated("R05-f", "nonnull-strip-scope", "is_subtype uses the NonNull-stripped super-type outside the match on the sub-type", loc=sub.loc())
+            continue
+        stripped_uses += 1
+        v, _c = arm_variants({"arms": [arms[0][2]]})
+        R.check("R05-f", "nonnull-strip-scope:" + "/".join(sorted(v)), v == {"NonNull"},
+                "the super-type's NonNull is ignored only when the sub-type is NonNull",
+                "is_subtype compares a %s sub-type against the super-type with its NonNull wrapper removed: a nullable (list) type is accepted "
+                "where the interface demands a non-null one" % "/".join(sorted(v)), loc=sub.loc())
+    R.floor("R05-f", "uses of the stripped super-type", stripped_uses, 1)
     pv = Prov(cvi)
     # is_subtype(field type, interface field type) in this order; violation only on Some(false)
     calls = [c for c in cvi.walk() if c.get("k") == "Call" and call_name(c) == sub.path]
@@ -329,7 +369,13 @@ def r05f(P, R):
     R.check("R05-f", "union-member-kind", ok, "union members must be Object types", "check_union accepts member kinds other than Object", loc=cu.loc())
 
 
-RULES = [("R05-a", r05a), ("R05-b", r05b), ("R05-c", r05c), ("R05-d", r05d), ("R05-e", r05e), ("R05-f", r05f)]
+def _r11d(P, R):
+    # duplicate same-kind definitions across files are detected by ExtensionList::set_original (shared with C11)
+    from c11 import r11d
+    r11d(P, R)
+
+
+RULES = [("R05-a", r05a), ("R05-b", r05b), ("R05-c", r05c), ("R05-d", r05d), ("R05-e", r05e), ("R05-f", r05f), ("R11-d", _r11d)]
 EXPLANATION = (
     "Type-system `check`, structural clauses for all schemas: (R05-a) every type-system position that can carry directives is passed to "
     "check_directives with exactly its spec location (input values disambiguated by their container), built-in directives list the spec's "
